@@ -200,6 +200,9 @@ func c01Spellings(rng *rand.Rand) []string {
 		{"xn--bcher-kva.example", "bücher.example", "Bücher.Example", "XN--BCHER-KVA.example", " bücher.example"},
 		{"*.wild.example.org", "*.Wild.Example.ORG", "*.wild.example.org "},
 		{"sub.例え.test", "sub.xn--r8jz45g.test", "SUB.xn--r8jz45g.TEST"},
+		{"*.xn--bcher-kva.example", "*.bücher.example", "*.Bücher.Example ", "*.XN--BCHER-KVA.EXAMPLE"},
+		{"_srv.xn--bcher-kva.example", "_srv.bücher.example", "_SRV.Bücher.example"},
+		{"198.51.100.9", " 198.51.100.9"},
 	}
 	return fams[rng.Intn(len(fams))]
 }
@@ -543,7 +546,8 @@ func keysOf(m map[string]bool) []string {
 // trimmed, IDNA ToASCII via the table below for the families used here)
 func canonicalSubjectForVerif(s string) string {
 	s = strings.ToLower(strings.TrimSpace(s))
-	repl := map[string]string{"bücher.example": "xn--bcher-kva.example", "sub.例え.test": "sub.xn--r8jz45g.test"}
+	repl := map[string]string{"bücher.example": "xn--bcher-kva.example", "sub.例え.test": "sub.xn--r8jz45g.test",
+		"*.bücher.example": "*.xn--bcher-kva.example", "_srv.bücher.example": "_srv.xn--bcher-kva.example"}
 	if v, ok := repl[s]; ok {
 		return v
 	}
